@@ -712,6 +712,7 @@ def corpus_ops():
 # ----------------------------------------------------------------------------------------------------------------
 # running an operation sequence
 # ----------------------------------------------------------------------------------------------------------------
+MODEL_HAS_MUTATE = True    # Artifact.v has the operation [Mutate k j]: the caller changed a loaded object in place
 ALIAS_ID = "F-AL"       # loads hand out the cached object itself: mutating a loaded value changes later loads (same handle)
 
 
@@ -721,6 +722,8 @@ def load_mutation_mode():
     replace are mutated always."""
     if os.environ.get("VERIF_C19_LOAD_ALIAS"):
         return True
+    if not MODEL_HAS_MUTATE:
+        return False
     try:
         import core
         return any(f["id"] == ALIAS_ID and PROPERTY in f["properties"] for f in core._findings())
@@ -841,6 +844,7 @@ def run_ops(case):
             if k is not None and k not in used:
                 used.append(k)
             err, loaded = None, None
+            mutated_to = None
             d_coq = None
             keys_before = [str(x) for x in a.keys]
             if "data" in op:
@@ -913,6 +917,7 @@ def run_ops(case):
                 if mutate_loads and rng.random() < 0.6:
                     mutate(loaded)                 # ... and changes what it was given back
                     tainted.add(k)
+                    mutated_to = content(canon_h(loaded, filters[cur_f]))
             # ---- observations ----
             keys1 = [str(x) for x in a.keys]
             filekeys = [str(x) for x in hdf.get_keys(path)]
@@ -968,6 +973,12 @@ def run_ops(case):
                 o, cbool(rejected), copt(loaded_id, cz), clist(ckey(parts_of, x) for x in keys1),
                 clist(ckey(parts_of, x) for x in filekeys), clist(ckey(parts_of, x) for x in keys2),
                 clist(cpair(ckey(parts_of, pk), copt(cid, cz)) for pk, cid in loads2)))
+            if mutated_to is not None:
+                # the model is told: the object this load returned was changed in place and is now `mutated_to` (the cache
+                # holds that very object - open finding F-AL); nothing else has changed
+                obs_coq.append("{| o_op := Mutate %s %s; o_rej := false; o_loaded := None; o_keys := %s; o_file := %s; o_keys2 := %s; o_loads2 := [] |}" % (
+                    ckey(parts_of, k), cz(mutated_to), clist(ckey(parts_of, x) for x in keys1),
+                    clist(ckey(parts_of, x) for x in filekeys), clist(ckey(parts_of, x) for x in keys2)))
             trace.append([kind, k, type(err).__name__ if rejected else "ok", sorted(keys1)])
     finally:
         try:
@@ -998,13 +1009,10 @@ def run_ops(case):
 
 
 def finding_of_ops(case, res):
-    """F-AL: the only thing wrong is a same-handle load of a key of which an earlier LOADED object was mutated in place (for a
-    model / implementation disagreement: some loaded object of the case was mutated and the oracle saw nothing else)"""
-    obs = res.obs or {}
-    cl = obs.get("failure_classes") or []
-    if cl:
-        return ALIAS_ID if set(cl) == {"alias_load"} else None
-    return ALIAS_ID if obs.get("tainted") else None
+    """F-AL: every oracle failure of the case is a same-handle load of a key of which an earlier LOADED object was changed in
+    place.  (The Coq model has that aliasing - [Mutate] - so a model / implementation disagreement is never attributed.)"""
+    cl = (res.obs or {}).get("failure_classes") or []
+    return ALIAS_ID if cl and set(cl) == {"alias_load"} else None
 
 
 # ----------------------------------------------------------------------------------------------------------------
